@@ -32,12 +32,19 @@ def gen_decls(rng, depth, counter):
         counter[0] += 1
         t = rng.choice(['int', 'int', 'str'])
         fl = F_LIST if rng.random() < 0.2 else 0
-        decls.append(D('o%d' % counter[0], t, fl, [1, 2] if fl and t == 'int' else ['u'] if fl else (counter[0] if t == 'int' else 'v%d' % counter[0])))
+        oname = 'o%d' % counter[0]
+        if rng.random() < 0.04:
+            oname += '_' + 'm' * rng.choice([30, 60, 61, 62, 63, 64, 127, 128, 300])
+        decls.append(D(oname, t, fl, [1, 2] if fl and t == 'int' else ['u'] if fl else (counter[0] if t == 'int' else 'v%d' % counter[0])))
     if depth < 3:
         for _ in range(rng.randint(0 if depth else 1, 3 if depth < 2 else 2)):
             counter[0] += 1
             fl = rng.choice([0, F_MULTI, F_MULTI | F_TITLE, F_MULTI | F_TITLE])
-            decls.append(D('s%d' % counter[0], 'sec', fl, sub=gen_decls(rng, depth + 1, counter)))
+            sname = 's%d' % counter[0]
+            r = rng.random()
+            if r < 0.06:
+                sname += '_' + 'n' * rng.choice([29, 30, 31, 59, 60, 61, 62, 63, 64, 125, 126, 127, 128, 300])      # (names around fixed-buffer sizes)
+            decls.append(D(sname, 'sec', fl, sub=gen_decls(rng, depth + 1, counter)))
     rng.shuffle(decls)
     return decls
 
